@@ -32,3 +32,27 @@ func TestGovcScenarioUnsubscribeOrder(t *testing.T) {
 		}
 	}
 }
+
+// A listener added after another one was removed must get its own identity:
+// shutting it down must not detach a listener that is still live.
+func TestGovcScenarioSubscribeAfterUnsubscribe(t *testing.T) {
+	e := New[int]()
+	hit := map[string]int{}
+	mk := func(name string) Unsubscribe { return e.Subscribe(func(int) { hit[name]++ }) }
+	ua := mk("A")
+	mk("B")
+	mk("C")
+	ua()
+	ud := mk("D")
+	ud()
+	if len(e.subscribers) != 2 {
+		t.Fatalf("after A and D were shut down %d listeners remain, want 2 (B and C)", len(e.subscribers))
+	}
+	for _, s := range e.subscribers {
+		s.fn(1)
+	}
+	if hit["B"] != 1 || hit["C"] != 1 || hit["A"] != 0 || hit["D"] != 0 {
+		t.Errorf("notifications misrouted after subscribe-unsubscribe-subscribe: %v", hit)
+	}
+}
+
